@@ -10,7 +10,7 @@
     Concurrent cache: the corresponding statements are decided by the lock-step correspondence,
     the no-loss oracle and the refill probe; the accounting theorem they rest on (no ghost
     entries, counters = physical after maintenance) is Sync/SInvTop.v. *)
-From MM Require Import Contract.Trace Contract.UnsyncTrace Contract.SyncComplete Unsync.UInvDefs Unsync.UInv Unsync.UPolicyDefs Unsync.UPolicy Sync.SInvDefs Sync.SPolicyDefs Sync.SPolicy.
+From MM Require Import Contract.Trace Contract.UnsyncTrace Contract.SyncComplete Unsync.UInvDefs Unsync.UInv Unsync.UPolicyDefs Unsync.UPolicy Sync.SInvDefs Sync.SPolicyDefs Sync.SPolicy Sync.SRecency Sync.SEndToEnd.
 
 Theorem C03_unsync_unbounded_is_map_with_expiry : forall c ops, cfg_ok c -> uc_cap c = None ->
   N.of_nat (length ops) < 2 ^ 24 -> u_trace_complete c ∅ urun_init ops.
@@ -101,6 +101,35 @@ Theorem C03_sync_fitting_insert_admitted_evicts_nothing : forall c s k ve w s',
   end.
 Proof. exact s_pending_insert_outcome. Qed.
 
+(** OPERATION LEVEL, concurrent cache with maintenance after every operation (Sync/SEndToEnd.v): the
+    operation and the maintenance run that follows it, composed, in BOTH housekeeping regimes, stated on
+    the quiescent state before the operation (no expiry configured, no invalidate_all cut-off pending). *)
+Theorem C03_sync_insert_then_maintenance : forall c r k v r1 o1 r2 o2,
+  let s := sr_state r in let s' := sr_state r2 in let w := sweigh c k v in
+  scfg_ok c -> SInv c s -> s_small s -> s_next s + 2 < 2 ^ 31 ->
+  quiescent s -> noexp c s -> within c s -> s_map s !! k = None ->
+  sstep c r (SInsert k v) = Ok (r1, o1) -> sstep c r1 SSync = Ok (r2, o2) ->
+  SInv c s' /\ quiescent s' /\
+  match sc_cap c with
+  | None => s_view s' = <[k := v]> (s_view s) /\ s_lru_keys s' = s_lru_keys s ++ [k] /\ s_ws s' = s_ws s + w
+  | Some cap =>
+    if s_ws s + w <=? cap then
+      s_view s' = <[k := v]> (s_view s) /\ s_lru_keys s' = s_lru_keys s ++ [k] /\ s_ws s' = s_ws s + w
+    else if cap <? w then
+      s_view s' = s_view s /\ s_lru_keys s' = s_lru_keys s /\ s_ws s' = s_ws s
+    else match tinylfu_victims (s_lru_triples s) w (frequency (s_sk s) (sc_hash c k)) with
+         | Some p =>
+             s_view s' = <[k := v]> (delete_keys (p.*1.*1) (s_view s)) /\
+             s_lru_keys s' = drop (length p) (s_lru_keys s) ++ [k] /\
+             p.*1.*1 = take (length p) (s_lru_keys s) /\
+             s_ws s' + sum_w p = s_ws s + w
+         | None =>
+             s_view s' = s_view s /\ s_lru_keys s' = s_lru_keys s /\ s_ws s' = s_ws s
+         end
+  end.
+Proof. exact s_insert_sync_outcome. Qed.
+
+Print Assumptions C03_sync_insert_then_maintenance.
 Print Assumptions C03_sync_maintenance_removal_causes.
 Print Assumptions C03_sync_fitting_insert_admitted_evicts_nothing.
 Print Assumptions C03_sync_unbounded_is_map_with_expiry.
